@@ -122,6 +122,13 @@ partial def twalkL (T : Tables) (seen : List Nat) : List Tree → St × Obs → 
     | .ok s1 => twalkL T (match r with | some x => x :: seen | none => seen) ts s1
 end
 
+/-- the text of every oC_IntegerLiteral node of the tree -/
+partial def intTexts : Tree → List String
+  | .node r kids =>
+    if ruleName r == "oC_IntegerLiteral" then [String.join (kids.map (fun k => match k with | .leaf s => leafText s | .err s => leafText s | _ => ""))]
+    else kids.flatMap intTexts
+  | _ => []
+
 def field (toks : List Sexp) (name : String) : Nat :=
   (toks.findSome? (fun s => match s with
     | .atom a => if a.startsWith (name ++ "=") then (a.drop (name.length + 1)).toString.toNat? else none
@@ -179,8 +186,10 @@ def step (_ : Unit) (ts : List String) : Unit × String :=
         -- the denotational counter machine (the proven one) must agree with the stack-aligned one
         let pden := match T.pwalk PT T.root t { len := 0, idx := 0 } with | .error _ => true | .ok _ => false
         let ppanic' := ppanic || mis > 0
-        let nerrs := nsyn + nother + nunsup.length
-        let derrs := dsyn + dother + dunsup.length + dfilt
+        -- integer literals the visitors cannot read (ParseInt base 10, 64 bit): one recorded error each, whatever the implementation reports
+        let badInts := (intTexts t).filter (fun s => !(intLiteralInRange s)) |>.length
+        let nerrs := nsyn + nother + nunsup.length + badInts
+        let derrs := dsyn + dother + dunsup.length + dfilt + badInts
         let (trace, empties, why) := match tr with
           | .ok (_, o) => (s!"{hex16 o.hash}:{o.events}:{o.max}", o.empties, "")
           | .error e => ("panic", [], e)
